@@ -8,6 +8,7 @@ use verif_harness::*;
 mod fam_path;
 mod fam_signed;
 mod fam_rules;
+mod fam_direct;
 
 pub type O = Out<BufWriter<File>>;
 
@@ -17,6 +18,13 @@ fn replay_one(o: &mut O, line: &str) {
     match kind {
         "path" => fam_path::replay(o, &f),
         "validate" => fam_signed::replay(o, &f),
+        "query" => fam_direct::replay_query(o, &f),
+        "key" => fam_direct::replay_key(o, &f),
+        "capacity" => fam_direct::replay_capacity(o, &f),
+        "iso" => fam_direct::replay_iso(o, &f),
+        "reqops" => fam_direct::replay_reqops(o, &f),
+        "hdrval" => fam_direct::replay_hdrval(o, &f),
+        "errtab" | "errconv" => fam_direct::errtab(o),
         _ => {
             eprintln!("unknown replay kind {}", kind);
             std::process::exit(2);
@@ -53,6 +61,12 @@ fn main() {
         "c16e" => fam_rules::c16_e2e(&mut o, tier, &mut rng),
         "c19" => fam_rules::c19(&mut o, tier, &mut rng),
         "c08" => fam_rules::c08(&mut o, tier, &mut rng),
+        "c10" => fam_direct::c10(&mut o, tier, &mut rng),
+        "c06" => fam_direct::c06(&mut o, tier, &mut rng),
+        "c16" => fam_direct::c16(&mut o, tier, &mut rng),
+        "reqops" => fam_direct::reqops(&mut o, tier, &mut rng),
+        "hdrval" => fam_direct::hdrval(&mut o, tier, &mut rng),
+        "errtab" => fam_direct::errtab(&mut o),
         "replay" => {
             let line = args[5..].join(" ");
             replay_one(&mut o, &line);
